@@ -1179,9 +1179,9 @@ def check_centres(ctx, cases, results):
             exp = clist([cq(x) for x in flat_q(v)])
             if what == "com":
                 items.append((i, what, "run_com_sym", "(%s, %s, %s, %s)" % (
-                    cqf("1e-11"), cz(UNIT), clist([cstr(x) for x in syms]), c_zframes(c["xyz"])), exp))
+                    cqf("1e-11"), cz(c["unit"]), clist([cstr(x) for x in syms]), c_zframes(c["xyz"])), exp))
             elif what == "cog":
-                items.append((i, what, "run_cog", "(%s, %s, %s)" % (cqf("1e-11"), cz(UNIT), c_zframes(c["xyz"])), exp))
+                items.append((i, what, "run_cog", "(%s, %s, %s)" % (cqf("1e-11"), cz(c["unit"]), c_zframes(c["xyz"])), exp))
             else:
                 idx = c["sel_expected"]
                 if r.get("sel_idx") != idx:
@@ -1189,7 +1189,7 @@ def check_centres(ctx, cases, results):
                         c["select"], r.get("sel_idx"), idx))
                     continue
                 items.append((i, what, "run_com_sym", "(%s, %s, %s, %s)" % (
-                    cqf("1e-11"), cz(UNIT), clist([cstr(syms[k]) for k in idx]),
+                    cqf("1e-11"), cz(c["unit"]), clist([cstr(syms[k]) for k in idx]),
                     c_zframes([[f[k] for k in idx] for f in c["xyz"]])), exp))
     for fn, ty in (("run_com_sym", "Q * Z * list string * list (list zvec)"), ("run_cog", "Q * Z * list (list zvec)")):
         sub = [it for it in items if it[2] == fn]
@@ -1233,7 +1233,7 @@ def check_rg(ctx, cases, results):
         ms = c["masses"] if c["masses"] else [[1, 1]] * na
         for fix in (True, False):
             jobs.append((i, fix))
-            coq.append(("(%s, %s, %s, %s, %s)" % (cqf("2e-5"), cbool(fix), cz(UNIT), clist([cq(m) for m in ms]),
+            coq.append(("(%s, %s, %s, %s, %s)" % (cqf("2e-5"), cbool(fix), cz(c["unit"]), clist([cq(m) for m in ms]),
                                                   c_zframes(c["xyz"])), exp))
     bad, errs = ctx.coq_mismatches(["MD.Desc.AlgebraModel"], ("Q * bool * Z * list Q * list (list zvec)", "list Q"),
                                    "close_res", "run_rg2", coq, shard=shard_for(len(coq), lo=2), prelude=QPRE)
@@ -1261,14 +1261,14 @@ def check_shape(ctx, cases, results):
                      expected="finite", tags={"kind": "shape", "explained_by": None})
             continue
         idx.append(i)
-        t_in.append(("(%s, %s, %s)" % (cqf("1e-10"), cz(UNIT), c_zframes(c["xyz"])), clist([cq(x) for x in flat_q(r["tensor"])])))
+        t_in.append(("(%s, %s, %s)" % (cqf("1e-10"), cz(c["unit"]), c_zframes(c["xyz"])), clist([cq(x) for x in flat_q(r["tensor"])])))
         fl, fs = [], []
         for f, lam, b, cc, k in zip(c["xyz"], r["pm"], r["b"], r["c"], r["k"]):
             lamq = "(%s, %s, %s)" % (cq(lam[0]), cq(lam[1]), cq(lam[2]))
             fl.append("(%s, %s)" % (clist([c_vec(v) for v in f]), lamq))
             fs.append("(%s, %s, (%s, %s, %s))" % (clist([c_vec(v) for v in f]), lamq, cq(b), cq(cc), cq(k)))
-        m_in.append(("(%s, %s, %s)" % (cqf("1e-9"), cz(UNIT), clist(fl)), clist(["(Qmake 0 1)"] * (5 * len(fl)))))
-        s_in.append(("(%s, %s, %s)" % (cqf("1e-9"), cz(UNIT), clist(fs)), clist(["(Qmake 0 1)"] * (4 * len(fs)))))
+        m_in.append(("(%s, %s, %s)" % (cqf("1e-9"), cz(c["unit"]), clist(fl)), clist(["(Qmake 0 1)"] * (5 * len(fl)))))
+        s_in.append(("(%s, %s, %s)" % (cqf("1e-9"), cz(c["unit"]), clist(fs)), clist(["(Qmake 0 1)"] * (4 * len(fs)))))
     for what, fn, ty, inp, desc in (
             ("tensor", "run_gyration", "Q * Z * list (list zvec)", t_in,
              "compute_gyration_tensor differs from (1/N) sum (r-c)(r-c)^T about the centre of geometry"),
@@ -1308,7 +1308,7 @@ def check_density(ctx, cases, results):
             ctx.fail("density fails or returns non-finite values", c, observed=v, expected="finite",
                      tags={"kind": "density", "explained_by": None})
             continue
-        vols = clist([cqf(Fraction(b[0] * b[1] * b[2], UNIT ** 3)) for b in box_per_frame(c)])
+        vols = clist([cqf(Fraction(b[0] * b[1] * b[2], c["unit"] ** 3)) for b in box_per_frame(c)])
         exp = clist([cq(x) for x in v])
         if c["masses"]:
             mi.append(i)
@@ -1464,7 +1464,7 @@ def check_drid(ctx, cases, results):
                 xs = []
                 for b in tab[j]:
                     m = sum((f[a][k] - f[b][k]) ** 2 for k in range(3))
-                    xs.append(UNIT / math.sqrt(m) if m else float("inf"))
+                    xs.append(c["unit"] / math.sqrt(m) if m else float("inf"))
                 if any(math.isinf(x) for x in xs):
                     continue
                 n = len(xs)
@@ -1587,7 +1587,7 @@ def check_dipole(ctx, cases, results):
             continue
         q = [Fraction(*x) for x in c["charges"]]
         for fi, f in enumerate(c["xyz"]):
-            want = [sum(q[a] * Fraction(f[a][k] - f[0][k], UNIT) for a in range(len(f))) for k in range(3)]
+            want = [sum(q[a] * Fraction(f[a][k] - f[0][k], c["unit"]) for a in range(len(f))) for k in range(3)]
             got = [Fraction(*v[fi][k]) for k in range(3)]
             if all(abs(g - w) <= Fraction(1, 10 ** 9) for g, w in zip(got, want)):
                 continue
@@ -1655,7 +1655,7 @@ def check_inertia(ctx, cases, results):
                      tags={"kind": "inertia", "explained_by": None})
             continue
         idx.append(i)
-        inp.append(("(%s, %s, %s, %s)" % (cqf("1e-10"), cz(UNIT), clist([cstr(x) for x in atom_syms(c["top"])]),
+        inp.append(("(%s, %s, %s, %s)" % (cqf("1e-10"), cz(c["unit"]), clist([cstr(x) for x in atom_syms(c["top"])]),
                                           c_zframes(c["xyz"])), clist([cq(x) for x in flat_q(v)])))
     bad, errs = ctx.coq_mismatches(["MD.Desc.AlgebraModel", "MD.Desc.RdfModel", "MD.Desc.OrderModel"],
                                    ("Q * Z * list string * list (list zvec)", "list Q"),
@@ -1769,12 +1769,191 @@ def check_rdf_t(ctx, cases, results):
 
 
 # =====================================================================================
+# call histories on ONE Trajectory/Topology object
+# =====================================================================================
+def _names_for_rename(rng):
+    return rng.choice(["CA", "CB", "CX", "H", "HA", "N", "O", "ca", "HB9", "OXT"])
+
+
+def gen_history_case(rng, i):
+    """state changes interleaved with descriptor calls on one object; flavour 0: geometry (centering, superposition,
+    in-place coordinate edits, re-imaging, slicing), flavour 1: topology (elements, names, bonds) on grid coordinates"""
+    flavour = i % 2
+    top = gen_topology(rng, rng.randint(2, 4), p_odd=0.25, p_drop=0.1, max_chains=2)
+    while top_natoms(top) < 5:
+        top = gen_topology(rng, rng.randint(2, 4), p_odd=0.1, max_chains=2)
+    na = top_natoms(top)
+    nf = rng.randint(2, 4)
+    case = {"kind": "history", "top": top, "unit": UNIT, "xyz": gen_xyz(rng, nf, na, span=128),
+            "box": [512 + 64 * rng.randint(0, 4)] * 3 if rng.random() < 0.7 else None, "bonds": [], "flavour": flavour}
+    nb = rng.randint(0, na // 2)
+    bonds = set()
+    for _ in range(nb):
+        a, b = sorted(rng.sample(range(na), 2))
+        bonds.add((a, b))
+    case["bonds"] = [list(b) for b in sorted(bonds)]
+    n_atoms = [na]
+
+    def call():
+        n = n_atoms[0]
+        kinds = ["rg", "rg_m", "com", "com_sel", "shape", "inertia", "drid", "density", "dipole", "contacts"]
+        k = rng.choice(kinds)
+        if k == "rg":
+            return {"kind": "rg", "masses": None}
+        if k == "rg_m":
+            return {"kind": "rg", "masses": [dyadic(rng, 1, 40, 8) for _ in range(n)]}
+        if k == "com":
+            return {"kind": "centres", "select": None}
+        if k == "com_sel":
+            idx = sorted(rng.sample(range(n), rng.randint(1, n)))
+            return {"kind": "centres", "select": "index " + " ".join(map(str, idx)), "sel_expected": idx}
+        if k == "shape":
+            return {"kind": "shape"}
+        if k == "inertia":
+            return {"kind": "inertia"}
+        if k == "drid":
+            return {"kind": "drid", "atom_indices": None}
+        if k == "density":
+            return {"kind": "density", "masses": None}
+        if k == "dipole":
+            q = [rng.randint(-16, 16) for _ in range(n)]
+            q[-1] -= sum(q)
+            return {"kind": "dipole", "charges": [[x, 16] for x in q]}
+        return {"kind": "contacts", "scheme": rng.choice(SCHEMES), "soft_min": False, "periodic": False, "beta": None,
+                "contacts": "all" if rng.random() < 0.4 else [[rng.randrange(len(top)), rng.randrange(len(top))]
+                                                              for _ in range(rng.randint(1, 3))],
+                "ignore_nonprotein": rng.random() < 0.5, "squareform": False}
+
+    def state():
+        n = n_atoms[0]
+        if flavour == 0:
+            k = rng.choice(["center", "center", "center_mw", "superpose", "scale_axis", "shift_atoms", "swap_frames_view",
+                            "set_xyz", "slice", "make_whole", "image", "set_unitcell", "set_element"])
+        else:
+            k = rng.choice(["set_element", "set_element", "rename_atom", "rename_atom", "rename_residue", "add_bond",
+                            "add_bond", "shift_atoms", "scale_axis", "set_unitcell", "set_xyz"])
+        if k == "center":
+            return {"op": "center"}
+        if k == "center_mw":
+            return {"op": "center", "mass_weighted": True}
+        if k == "superpose":
+            return {"op": "superpose", "frame": 0}
+        if k == "scale_axis":
+            return {"op": "scale_axis", "axis": rng.randrange(3), "factor": rng.choice([2, 3, 0.5])}
+        if k == "shift_atoms":
+            return {"op": "shift_atoms", "atoms": sorted(rng.sample(range(n), rng.randint(1, n))),
+                    "delta": [rng.randint(-64, 64) for _ in range(3)]}
+        if k == "swap_frames_view":
+            return {"op": "swap_frames_view"}
+        if k == "set_xyz":
+            return {"op": "set_xyz", "xyz": gen_xyz(rng, nf, n, span=128), "needs_frames": nf}
+        if k == "slice":
+            return {"op": "slice", "frames": [0, 1] if rng.random() < 0.5 else [1, 0]}
+        if k == "make_whole":
+            return {"op": "make_whole"}
+        if k == "image":
+            return {"op": "image"}
+        if k == "set_unitcell":
+            return {"op": "set_unitcell", "lengths": [512 + 64 * rng.randint(0, 6) for _ in range(3)]}
+        if k == "set_element":
+            return {"op": "set_element", "atoms": sorted(rng.sample(range(n), rng.randint(1, n))),
+                    "symbol": rng.choice(["D", "H", "C", "Na", "Fe"])}
+        if k == "rename_atom":
+            return {"op": "rename_atom", "atom": rng.randrange(n), "name": _names_for_rename(rng)}
+        if k == "rename_residue":
+            return {"op": "rename_residue", "residue": rng.randrange(len(top)), "name": rng.choice(["GLY", "ALA", "HOH", "LIG"])}
+        a, b = rng.sample(range(n), 2)
+        return {"op": "add_bond", "a": a, "b": b}
+
+    ops = []
+    # the first calls warm whatever the implementation may remember
+    warm = [{"kind": "rg", "masses": None}, {"kind": "centres", "select": None}]
+    rng.shuffle(warm)
+    for w in warm[:rng.randint(1, 2)]:
+        ops.append({"op": "call", "args": w})
+    sliced = False
+    for _ in range(rng.randint(3, 6)):
+        st = state()
+        if st["op"] == "slice":
+            if sliced:
+                continue
+            sliced = True
+            nf = 2
+        if st["op"] == "set_xyz" and sliced:
+            st["xyz"] = st["xyz"][:2]
+        ops.append(st)
+        for _ in range(rng.randint(1, 2)):
+            ops.append({"op": "call", "args": call()})
+    # always finish with the two calls whose inputs were most likely edited
+    ops.append({"op": "call", "args": {"kind": "rg", "masses": None}})
+    ops.append({"op": "call", "args": {"kind": "centres", "select": None}})
+    case["ops"] = ops
+    return case
+
+
+def check_history(ctx, cases, results):
+    derived = {}     # kind -> ([derived cases], [derived results], [history case index])
+    for hi, (c, r) in enumerate(zip(cases, results)):
+        ncalls = 0
+        for st in r["steps"]:
+            if "res" not in st:
+                if st.get("skip"):
+                    ctx.notes.setdefault("coverage_extra", {}).setdefault("excluded", {}).setdefault("history_contacts_offgrid", 0)
+                    ctx.notes["coverage_extra"]["excluded"]["history_contacts_offgrid"] += 1
+                continue
+            op = c["ops"][st["i"]]
+            snap = st["snap"]
+            if st.get("mutated_by_call"):
+                ctx.fail("a descriptor call changed the coordinates or the topology of the object it was given", c,
+                         observed=op["args"]["kind"], expected="unchanged object", tags={"kind": "history", "explained_by": None})
+                continue
+            if not snap["exact"]:
+                continue
+            d = dict(op["args"])
+            d.update(top=snap["top"], unit=snap["unit"], xyz=snap["xyz"], bonds=snap["bonds"], box=None)
+            kind = d["kind"]
+            if kind == "density":
+                if snap["box"] is None:
+                    continue
+                d["box"] = snap["box"]
+            if kind == "dipole":
+                # the closed form sum q_i (r_i - r_0) presupposes that no displacement is wrapped
+                if snap["box"] is None:
+                    continue
+                half = min(min(b) for b in snap["box"]) / 2
+                spread = max(abs(f[a][k] - f[b][k]) for f in snap["xyz"] for a in range(len(f)) for b in (0,) for k in range(3))
+                if 2 * spread >= half:
+                    continue
+            if kind == "drid" and any(len(set(map(tuple, f))) < len(f) for f in snap["xyz"]):
+                continue
+            ncalls += 1
+            dc, dr, dh = derived.setdefault(kind, ([], [], []))
+            dc.append(d)
+            dr.append(st["res"])
+            dh.append(hi)
+        ctx.count({"history": c["ops"], "top": c["top"]}, nontrivial=ncalls > 1, bucket="history/%s" % (
+            "geometry" if c["flavour"] == 0 else "topology"))
+    for kind, (dc, dr, dh) in derived.items():
+        n0 = len(ctx.failures)
+        CHECKS[kind](ctx, dc, dr)
+        for f in ctx.failures[n0:]:
+            k = next((j for j, x in enumerate(dc) if x is f["case"]), None)
+            hist = cases[dh[k]] if k is not None else None
+            f["desc"] = "after a call history on one object: " + f["desc"]
+            f["tags"] = dict(f.get("tags") or {}, history=True)
+            if hist is not None:
+                f["case"] = hist
+    ctx.notes.setdefault("coverage_extra", {})["history_calls_checked"] = \
+        ctx.notes.get("coverage_extra", {}).get("history_calls_checked", 0) + sum(len(v[0]) for v in derived.values())
+
+
+# =====================================================================================
 # driver
 # =====================================================================================
 CHECKS = {"contacts": check_contacts, "squareform": check_squareform, "centres": check_centres, "rg": check_rg,
           "shape": check_shape, "density": check_density, "rdf": check_rdf, "drid": check_drid,
           "karplus": check_karplus, "dipole": check_dipole, "inertia": check_inertia, "order": check_order,
-          "rdf_t": check_rdf_t}
+          "rdf_t": check_rdf_t, "history": check_history}
 
 
 def fixed_probes():
@@ -1832,6 +2011,7 @@ def build_cases(ctx):
     cases += [gen_geom_case(rng, "inertia") for _ in range(12 * k)]
     cases += [gen_order_case(rng, i) for i in range(15 * k)]
     cases += [gen_rdf_t_case(rng, i) for i in range(24 * k)]
+    cases += [gen_history_case(rng, i) for i in range(24 * k)]
     return cases
 
 
